@@ -100,6 +100,8 @@ class Opening:
     fault: BaseException | None = None
     last_kwargs: dict | None = None
     last_pair = None
+    make_writer = None      # reader -> writer; None = a plain FakeWriter
+
 
 
 async def fake_open(**kwargs):
@@ -107,9 +109,108 @@ async def fake_open(**kwargs):
     if Opening.fault is not None:
         exc, Opening.fault = Opening.fault, None
         raise exc
-    pair = (asyncio.StreamReader(limit=Opening.limit), FakeWriter())
+    reader = asyncio.StreamReader(limit=Opening.limit)
+    pair = (reader, FakeWriter() if Opening.make_writer is None else Opening.make_writer(reader))
     Opening.last_pair = pair
     return pair
+
+
+class GatedWriter(FakeWriter):
+    """A writer with flow control, shaped after asyncio.StreamWriter over a socket transport (CPython 3.12
+    streams.py / selector_events.py): `write` hands the bytes to the stream at once (they reach the peer in
+    that order); `drain` returns at once unless the stream is *blocked* (the peer is not reading and the send
+    buffer is over the high-water mark), in which case it waits until the harness releases the stream or the
+    connection is lost; `close` on a blocked stream closes only when the buffered bytes are flushed (released),
+    and `wait_closed` waits for that; after the connection is lost `write` drops the bytes silently and `drain`
+    raises ConnectionResetError; a loss with an exception wakes everything that waits with that exception and
+    sets it on the reader, a clean loss feeds EOF to the reader.  The harness, not the implementation, holds the
+    handles, so every step is a deterministic event-loop schedule (no sockets, no clocks)."""
+
+    def __init__(self, reader: asyncio.StreamReader) -> None:
+        super().__init__()
+        self.reader = reader
+        self.blocked = False
+        self.closing = False
+        self.lost = False
+        self.lost_exc: BaseException | None = None
+        self.drain_waiters: list[asyncio.Future] = []
+        self.close_waiters: list[asyncio.Future] = []
+
+    # -- what the implementation calls
+    def write(self, data: bytes) -> None:
+        self.calls.append("write")
+        if not isinstance(data, (bytes, bytearray)):
+            raise TypeError("write() needs bytes")
+        if self.lost:
+            return                                    # selector transports drop writes after connection_lost
+        self.data += data
+
+    async def drain(self) -> None:
+        self.calls.append("drain")
+        exc = self.reader.exception()
+        if exc is not None:
+            raise exc
+        if self.closing:
+            await asyncio.sleep(0)
+        if self.lost:
+            raise ConnectionResetError("Connection lost")
+        if not self.blocked:
+            return
+        await self._wait(self.drain_waiters)
+
+    def close(self) -> None:
+        self.calls.append("close")
+        self.closed = True
+        if self.closing:
+            return
+        self.closing = True
+        if not self.blocked:
+            self.lose(None)
+
+    async def wait_closed(self) -> None:
+        self.calls.append("wait_closed")
+        if not self.lost:
+            await self._wait(self.close_waiters)
+        elif self.lost_exc is not None:
+            raise self.lost_exc
+
+    async def _wait(self, queue: list) -> None:
+        fut = asyncio.get_running_loop().create_future()
+        queue.append(fut)
+        try:
+            await fut
+        finally:
+            if fut in queue:
+                queue.remove(fut)
+
+    # -- what the harness does to the stream
+    def block(self) -> None:
+        self.blocked = True
+
+    def release(self) -> None:
+        """The peer reads: the buffer empties, waiting drains return, a pending close completes."""
+        self.blocked = False
+        for fut in list(self.drain_waiters):
+            if not fut.done():
+                fut.set_result(None)
+        if self.closing:
+            self.lose(None)
+
+    def lose(self, exc: BaseException | None) -> None:
+        """connection_lost(exc)."""
+        if self.lost:
+            return
+        self.lost, self.lost_exc = True, exc
+        if exc is None:
+            self.reader.feed_eof()
+        else:
+            self.reader.set_exception(exc)
+        for fut in [*self.drain_waiters, *self.close_waiters]:
+            if not fut.done():
+                if exc is None:
+                    fut.set_result(None)
+                else:
+                    fut.set_exception(exc)
 
 
 class DirectTransport(StreamTransport):
@@ -171,6 +272,33 @@ def is_transport_error(obs: str) -> bool:
 YIELDS = 3
 
 
+class HangGuard:
+    """The fakes never make a call wait unless the harness says so; a call of the implementation that still
+    does not finish is reported, not waited for for ever.  Real time is only spent when something hangs."""
+
+    seconds = 0.5
+    hangs = 0
+
+    @classmethod
+    def hung(cls) -> None:
+        cls.hangs += 1
+        if cls.hangs >= 10:
+            cls.seconds = 0.02       # enough evidence; keep the run short
+
+    @classmethod
+    async def call(cls, coro) -> str:
+        """Await connect()/write()/disconnect() in the calling task (the schedule is the one of a plain await)."""
+        try:
+            async with asyncio.timeout(cls.seconds) as cm:
+                r = await coro
+            return "ok" if r is None else f"returned {r!r}"
+        except Exception as e:  # noqa: BLE001
+            if isinstance(e, TimeoutError) and cm.expired():
+                cls.hung()
+                return "hang"
+            return classify(e)
+
+
 class Runner:
     """Executes operation lists on the real transport and evaluates the oracle while doing so."""
 
@@ -188,7 +316,7 @@ class Runner:
         obs: list[str] = []
         # oracle state of the current connection
         st = {"connected": False, "data": b"", "eof": False, "limit": 0, "done": 0, "failed": None,
-              "accepted": b"", "writer": None}
+              "accepted": b"", "writer": None, "reader": None}
 
         def bad(what: str, **kw) -> None:
             corr.violate(what, {**info, "flavour": ["direct", "tcp", "serial"][flavour], "op_index": len(obs) - 1, **kw})
@@ -223,7 +351,7 @@ class Runner:
                 await drop_pending()
                 if kind != "conn":
                     t, expected_kwargs = make_transport(flavour)
-                    st.update(connected=False, data=b"", eof=False, done=0, failed=None, accepted=b"", writer=None)
+                    st.update(connected=False, data=b"", eof=False, done=0, failed=None, accepted=b"", writer=None, reader=None)
                 if kind == "tnew":
                     obs.append("ok")
                     continue
@@ -232,12 +360,11 @@ class Runner:
                 Opening.limit = limit
                 Opening.fault = FAULTS[fname]("injected") if fname else None
                 Opening.last_kwargs = None
-                try:
-                    r = await t.connect()
-                    o = "ok" if r is None else f"returned {r!r}"
-                except Exception as e:  # noqa: BLE001
-                    o = classify(e)
+                o = await HangGuard.call(t.connect())
                 obs.append(o)
+                if o == "hang":
+                    bad("connect neither returned nor raised although the open function does not wait")
+                    break
                 if Opening.last_kwargs != expected_kwargs:
                     bad("_open_connection did not pass the configured address through",
                         got=repr(Opening.last_kwargs), want=repr(expected_kwargs))
@@ -245,7 +372,7 @@ class Runner:
                     if o != "ok":
                         bad("connect failed without a fault", got=o)
                     st.update(connected=True, data=b"", eof=False, limit=limit, done=0, failed=None, accepted=b"",
-                              writer=Opening.last_pair[1])
+                              writer=Opening.last_pair[1], reader=Opening.last_pair[0])
                     if t.reader is not Opening.last_pair[0] or t.writer is not Opening.last_pair[1]:
                         bad("connect did not install the opened reader/writer")
                 elif fname in IO_FAULTS and not is_transport_error(o):
@@ -254,21 +381,21 @@ class Runner:
                 if not st["connected"]:
                     obs.append("noconn")
                     continue
-                t.reader.feed_data(op[1])
+                st["reader"].feed_data(op[1])
                 st["data"] += op[1]
                 obs.append("ok")
             elif kind == "eof":
                 if not st["connected"]:
                     obs.append("noconn")
                     continue
-                t.reader.feed_eof()
+                st["reader"].feed_eof()
                 st["eof"] = True
                 obs.append("ok")
             elif kind == "fail":
                 if not st["connected"]:
                     obs.append("noconn")
                     continue
-                t.reader.set_exception(FAULTS[op[1]]("injected"))
+                st["reader"].set_exception(FAULTS[op[1]]("injected"))
                 st["failed"] = op[1]
                 obs.append("ok")
             elif kind == "read":
@@ -311,14 +438,13 @@ class Runner:
                 w = st["writer"]
                 if w is not None:
                     w.fault = (where, FAULTS[fname]("injected")) if fname else None
-                try:
-                    r = await t.write(text)
-                    o = "ok" if r is None else f"returned {r!r}"
-                except Exception as e:  # noqa: BLE001
-                    o = classify(e)
+                o = await HangGuard.call(t.write(text))
                 obs.append(o)
                 if w is not None:
                     w.fault = None
+                if o == "hang":
+                    bad("write neither returned nor raised although the stream does not make it wait")
+                    break
                 if not st["connected"]:
                     if not is_transport_error(o):
                         bad("write before connect did not raise a transport error", got=o)
@@ -337,14 +463,13 @@ class Runner:
                 w = st["writer"]
                 if w is not None:
                     w.fault = (where, FAULTS[fname]("injected")) if fname else None
-                try:
-                    r = await t.disconnect()
-                    o = "ok" if r is None else f"returned {r!r}"
-                except Exception as e:  # noqa: BLE001
-                    o = classify(e)
+                o = await HangGuard.call(t.disconnect())
                 obs.append(o)
                 if w is not None:
                     w.fault = None
+                if o == "hang":
+                    bad("disconnect neither returned nor raised although the stream does not make it wait")
+                    break
                 if (fname is None or fname in IO_FAULTS) and o != "ok":
                     bad("disconnect did not absorb an OS-level error", fault=fname, got=o)
                 if st["connected"] and fname is None and not w.closed:
@@ -356,6 +481,235 @@ class Runner:
                 raise ValueError(f"unknown op {op!r}")
         await drop_pending()
         return done_ops, obs
+
+
+# ---- concurrent use: several calls in flight on one connection ---------------------------------
+#
+# A concurrent case is a list of steps on ONE connection whose writer is a `GatedWriter`:
+#   ("block",)        the peer stops reading: from now on a drain() waits
+#   ("release",)      the peer reads everything: waiting drains return, a pending close completes
+#   ("lose", name)    the connection is lost, with the exception class `name` (OSError family) or cleanly (None)
+#   ("w", text)       a new task calls transport.write(text) and runs until it returns, raises or has to wait
+#   ("d",)            a new task calls transport.disconnect(), likewise
+#   ("r",)            a new task calls transport.read(), likewise (at most one per case)
+#   ("feed", bytes)   bytes arrive for the reader
+# After every step the event loop runs until nothing moves.  At the end the stream is released and every call
+# must have finished.  The schedule is fixed by the step list: tasks are started in list order, so "call order"
+# is the order of the ("w", ...) steps.
+
+C_YIELDS = 6
+
+
+def explains(data: bytes, writes: list[tuple[bytes, bool]]) -> bool:
+    """C17's words for writes: is `data` exactly the lines of a subsequence of the calls, each whole, in call
+    order, that contains every call marked True (the ones that returned normally)?"""
+    n = len(writes)
+    seen: set[tuple[int, int]] = set()
+
+    def go(i: int, pos: int) -> bool:
+        if i == n:
+            return pos == len(data)
+        if (i, pos) in seen:
+            return False
+        seen.add((i, pos))
+        b, must = writes[i]
+        if data.startswith(b, pos) and go(i + 1, pos + len(b)):
+            return True
+        return (not must) and go(i + 1, pos)
+
+    return go(0, 0)
+
+
+def cop_text(op: tuple) -> str:
+    if op[0] == "w":
+        return f"write {op[1]!r}"
+    if op[0] == "lose":
+        return f"lose {op[1] or 'clean'}"
+    if op[0] == "feed":
+        return f"feed {op[1]!r}"
+    return {"d": "disconnect", "r": "read"}.get(op[0], op[0])
+
+
+async def run_concurrent(corr: Corr, ops: list[tuple], flavour: int, limit: int, info: dict):
+    """Execute one concurrent case on the real transport and judge it by the property.  Returns
+    (history, write outcomes in call order, stream bytes, overlapped?)."""
+    Opening.limit, Opening.fault, Opening.last_kwargs = limit, None, None
+    Opening.make_writer = GatedWriter
+    try:
+        t, _ = make_transport(flavour)
+        await t.connect()
+    finally:
+        Opening.make_writer = None
+    reader, w = Opening.last_pair            # the harness's own handles; the transport's fields are never used
+    tasks: list[tuple[str, asyncio.Task]] = []      # (label, task) in start order
+    reported: set[str] = set()
+    outcome: dict[str, str] = {}
+    history: list[str] = ["connect"]
+    texts: list[str] = []
+    fed = b""
+    disturbed = False                        # a disconnect or a connection loss is part of the case
+    overlapped = False
+
+    def bad(what: str, **kw) -> None:
+        corr.violate(what, {**info, "flavour": ["direct", "tcp", "serial"][flavour], "limit": limit,
+                            "history": list(history), "stream": bytes(w.data).hex(), **kw})
+
+    def collect() -> str:
+        news = []
+        for label, task in tasks:
+            if label in reported or not task.done():
+                continue
+            reported.add(label)
+            try:
+                r = task.result()
+                if label.startswith("read"):
+                    o = "line " + enc(r) if type(r) is str else f"returned {type(r).__name__}"
+                else:
+                    o = "ok" if r is None else f"returned {r!r}"
+            except asyncio.CancelledError:
+                o = "cancelled"
+            except Exception as e:  # noqa: BLE001
+                o = classify(e)
+            outcome[label] = o
+            news.append(f"{label} {o}")
+        return "; ".join(news)
+
+    async def settle() -> None:
+        for _ in range(C_YIELDS):
+            await asyncio.sleep(0)
+
+    for op in ops:
+        kind = op[0]
+        if kind == "block":
+            w.block()
+        elif kind == "release":
+            w.release()
+        elif kind == "lose":
+            disturbed = True
+            w.lose(FAULTS[op[1]]("injected") if op[1] else None)
+        elif kind == "feed":
+            reader.feed_data(op[1])
+            fed += op[1]
+        elif kind == "w":
+            label = f"write#{len(texts)}"
+            texts.append(op[1])
+            if any(lb.startswith("write") and not tk.done() for lb, tk in tasks):
+                overlapped = True
+            tasks.append((label, asyncio.ensure_future(t.write(op[1]))))
+        elif kind == "d":
+            disturbed = True
+            tasks.append((f"disconnect#{sum(1 for lb, _ in tasks if lb.startswith('disc'))}",
+                          asyncio.ensure_future(t.disconnect())))
+        elif kind == "r":
+            tasks.append(("read", asyncio.ensure_future(t.read())))
+        else:
+            raise ValueError(f"unknown concurrent op {op!r}")
+        await settle()
+        got = collect()
+        history.append(cop_text(op) + (" -> " + got if got else ""))
+    # the end of every case: the peer reads everything; nothing may be left waiting except a read without data
+    w.release()
+    await settle()
+    pending = [tk for lb, tk in tasks if not tk.done() and lb != "read"]
+    if pending:
+        await asyncio.wait(pending, timeout=HangGuard.seconds)
+        if any(not tk.done() for tk in pending):
+            HangGuard.hung()
+    got = collect()
+    history.append("release (end)" + (" -> " + got if got else ""))
+    for label, task in tasks:
+        if not task.done():
+            task.cancel()
+            try:
+                await task
+            except BaseException:  # noqa: BLE001
+                pass
+            outcome[label] = "wait"
+            if label != "read":
+                bad("a call neither returned nor raised although the stream was released and nothing blocks it any more",
+                    call=label)
+
+    # ---- the oracle (C17 restated; nothing here knows how write/disconnect are implemented)
+    n = len(texts)
+    outs = [outcome[f"write#{i}"] for i in range(n)]
+    for i, o in enumerate(outs):
+        if o not in ("ok", "wait") and not is_transport_error(o):
+            bad("a write that ran concurrently with other calls raised something that is not a transport error",
+                call=f"write#{i}", got=o)
+        elif not disturbed and o != "ok":
+            bad("a write on a connected stream without any I/O error did not succeed", call=f"write#{i}", got=o)
+    for label, o in outcome.items():
+        if label.startswith("disconnect") and o not in ("ok", "wait"):
+            bad("disconnect did not return normally (OS-level errors are to be absorbed)", call=label, got=o)
+    if not explains(bytes(w.data), [(x.encode("utf-8"), o == "ok") for x, o in zip(texts, outs)]):
+        bad("the stream does not hold exactly the lines of the writes that succeeded (and possibly of failed ones), "
+            "each whole, in call order", writes=[[x, o] for x, o in zip(texts, outs)])
+    if "read" in outcome:
+        o = outcome["read"]
+        res, _ = available(fed, False, limit)
+        if o.startswith(("foreign", "returned")):
+            bad("a read that ran concurrently with other calls raised something that is not a transport error", got=o)
+        elif o.startswith("line") and not (res and res[0] == ("line", lib.dec(o.split(" ")[1]))):
+            bad("a concurrent read returned something that is not the first line of the stream", got=o)
+        elif not disturbed and res and res[0][0] == "line" and not o.startswith("line"):
+            bad("a read on a connected stream holding a complete line did not return it", got=o)
+        elif not disturbed and res and res[0][0] == "err" and not is_transport_error(o):
+            bad("a read of an undecodable line did not raise a transport error", got=o)
+    return history, outs, bytes(w.data), overlapped
+
+
+C_TEXTS = ["1;2;1;0;0;20.5\n", "a\n", "7;2;1;0;47;caf\u00e9 \u20ac\n", "0;255;3;0;2;\n", "b;1\n", "\U0001f600\n", "a\n",
+           "x", ""]
+
+
+def concurrent_steps(shape: tuple, k: int) -> list[tuple]:
+    """The step letters of a shape -> steps; writes get the texts C_TEXTS[k], C_TEXTS[k+1], ... (two of the
+    texts are equal, one has no newline, one is empty), losses rotate through the OSError family."""
+    ops: list[tuple] = []
+    for j, c in enumerate(shape):
+        if c == "w":
+            ops.append(("w", C_TEXTS[(k + sum(1 for o in ops if o[0] == "w")) % len(C_TEXTS)]))
+        elif c == "L":
+            ops.append(("lose", IO_FAULTS[(k + j) % len(IO_FAULTS)]))
+        else:
+            ops.append({"d": ("d",), "l": ("lose", None), "b": ("block",), "u": ("release",)}[c])
+    return ops
+
+
+def concurrent_cases(rng, tier: str) -> list[tuple[list[tuple], int, dict]]:
+    """(steps, limit, info).  (a) EVERY sequence of at most 5 (thorough 6) steps over {write, disconnect, clean
+    loss, loss with an exception, block, release}, once starting on a blocked stream and once on a free one:
+    this puts a disconnect / a connection loss at each point between writes that wait on an earlier write's
+    drain; (b) random longer lives with up to 8 writes; a third of all cases also has a read in flight."""
+    import itertools
+    out = []
+    k = 0
+    for start_blocked in (True, False):
+        for length in range(1, (5 if tier == "quick" else 6) + 1):
+            for shape in itertools.product("wdlLbu", repeat=length):
+                if "w" not in shape:
+                    continue
+                ops = ([("block",)] if start_blocked else []) + concurrent_steps(shape, k)
+                if k % 3 == 2:
+                    ops = [("feed", b"ok\n" if k % 2 else b"o"), ("r",), *ops]
+                elif k % 3 == 1 and k % 4 == 1:
+                    ops = [("r",), *ops]
+                out.append((ops, 64, {"source": "concurrent:grid"}))
+                k += 1
+    for _ in range(1500 if tier == "quick" else 15000):
+        shape = []
+        for _ in range(rng.randint(5, 14)):
+            shape.append(rng.choice("wwwwwwbbuudlL"))
+        if shape.count("w") > 8:
+            continue
+        ops = ([("block",)] if rng.random() < 0.6 else []) + concurrent_steps(tuple(shape), rng.randrange(100))
+        if rng.random() < 0.3:
+            pos = rng.randrange(len(ops) + 1)
+            first_event = next((i for i, o in enumerate(ops) if o[0] in ("d", "lose")), len(ops))
+            feed = [("feed", rng.choice([b"ok\n", b"\xff\n", b"o", b"caf\xc3\xa9\nnext\n"]))] if rng.random() < 0.7 else []
+            ops[min(pos, first_event):min(pos, first_event)] = [*feed, ("r",)] if rng.random() < 0.5 else [("r",), *feed]
+        out.append((ops, rng.choice([8, 64]), {"source": "concurrent:random"}))
+    return out
 
 
 def model_line(op: tuple) -> str:
@@ -657,8 +1011,15 @@ def run_c17(ctx) -> Corr:
                 "close, wait_closed) x 8 OSError-family + 2 other classes, plus random transport lives; each read/"
                 "write/connect/disconnect outcome is checked against the property restated in Python, the whole "
                 "observation list against the Lean model op by op, and every pure framing case additionally as a "
-                "schedule against the model's Transport.run (the function the theorems quantify over). non-trivial = distinct (limit, ops, observations) with >= 2 "
-                "chunks, or an error outcome, or a fault")
+                "schedule against the model's Transport.run (the function the theorems quantify over); (d) concurrent use of one "
+                "connection whose writer's drain() is gated by the harness: every sequence of <= 5 (thorough 6) steps over "
+                "{start a write, start a disconnect, clean connection loss, loss with an OSError-family exception, block "
+                "the stream, release it} containing a write, from a blocked and from a free stream, a third with a read in "
+                "flight, plus 1500 (thorough 15000) random longer lives with up to 8 writes; judged by the property alone "
+                "(each write returns or raises a transport error, the stream holds the lines of the successful writes "
+                "whole and in call order, disconnect returns, nothing hangs), pure-contention cases also against the "
+                "model as sequential writes. non-trivial = distinct (limit, ops, observations) with >= 2 "
+                "chunks, or an error outcome, or a fault; for (d): overlapping writes, or a disconnect/loss in the case")
     tier = ctx.tier
     rng = lib.rng_for(ctx.seed, "c17")
     cases: list[tuple[list[tuple], dict]] = []      # (ops, info)
@@ -705,6 +1066,9 @@ def run_c17(ctx) -> Corr:
         cases.append((ops, {"source": "fault-grid"}))
     for _ in range(1500 if tier == "quick" else 20000):
         cases.append((fault_case(rng), {"source": "fault-random"}))
+    # (d) concurrent use of one connection (own generator stream: the cases above stay what they were)
+    ccases = concurrent_cases(lib.rng_for(ctx.seed, "c17-concurrent"), tier)
+    cresults: list[tuple] = []
 
     # ---- run on the implementation (one event loop for everything)
     saved_tcp, saved_serial = tcp_mod.asyncio.open_connection, serial_mod.open_serial_connection
@@ -734,9 +1098,15 @@ def run_c17(ctx) -> Corr:
             cases[i] = (executed, cases[i][1])
             all_obs.append(obs)
 
+    async def run_ccases() -> None:
+        for i, (cops, limit, info) in enumerate(ccases):
+            cresults.append(await run_concurrent(corr, cops, i % 3, limit,
+                                                 {**info, "ops": [cop_text(o) for o in cops]}))
+
     async def main() -> None:
         with Patched():
             await run_cases(0, n_corpus)            # the recorded witnesses first
+            await run_ccases()
         await concrete_checks_real(corr)
         with Patched():
             await concrete_checks_patched(corr)
@@ -744,7 +1114,38 @@ def run_c17(ctx) -> Corr:
 
     asyncio.run(main())
 
-    # ---- accounting
+    # ---- accounting (the concurrent cases first, so that two of them are among the evidence's samples)
+    # concurrent cases; those that are pure contention (writes, block, release only) have a sequential reading:
+    # the writes one after the other in call order, which is an operation list of the model
+    cmodel: list[tuple[list[str], list[str], dict]] = []
+    for (cops, limit, info), (history, wouts, data, overlapped) in zip(ccases, cresults):
+        kinds = {o[0] for o in cops}
+        corr.count("cases:" + info["source"])
+        corr.count(f"concurrent:writes-in-case:{sum(1 for o in cops if o[0] == 'w')}")
+        for kd, label in (("d", "disconnect"), ("lose", "connection-loss"), ("r", "read-in-flight")):
+            if kd in kinds:
+                corr.count("concurrent:with-" + label)
+        if overlapped:
+            corr.count("concurrent:writes-overlapping")
+        for o in wouts:
+            corr.count("concurrent:write-outcome:" + " ".join(o.split(" ")[:2]))
+        h = hashlib.sha1(repr((cops, limit, history)).encode()).hexdigest()
+        show = len(corr.samples) < 2 and len(cops) <= 6 and overlapped and len(kinds) >= 4
+        corr.case(h, overlapped or bool(kinds & {"d", "lose"}),
+                  {**info, "limit": limit, "history": history, "stream": data.hex()} if show else None)
+        if kinds <= {"w", "block", "release"}:
+            texts = [o[1] for o in cops if o[0] == "w"]
+            cmodel.append(([f"snew {limit}", *[f"write {enc(x)} -" for x in texts], "out"],
+                           ["ok", *wouts, f"out {hexb(data)} closed=0"], {**info, "history": history}))
+            corr.count("concurrent:compared-with-model-as-sequential-writes")
+    corr.notes.append("concurrent cases (source concurrent:*): several write()/disconnect()/read() calls in flight on one "
+                      "connection whose drain() is gated by the harness, with a disconnect or a connection loss at every "
+                      "point; the Lean model's driver has no operation for a call that is suspended half-way, so these are "
+                      "judged by the property's oracle alone (every write returns or raises a transport error, the stream "
+                      "holds the lines of the successful writes whole and in call order, disconnect returns normally, "
+                      "nothing hangs); only the pure-contention cases (no disconnect, no loss) are also compared with the "
+                      "model, read as the same writes one after the other in call order")
+
     for (ops, info), obs in zip(cases, all_obs):
         src = info["source"].split(":")[0]
         corr.count(f"cases:{src}")
@@ -760,7 +1161,15 @@ def run_c17(ctx) -> Corr:
     # ---- the model
     if ctx.model_ok:
         lines = [model_line(o) for ops, _ in cases for o in ops]
+        lines += [ln for mlines, _, _ in cmodel for ln in mlines]
         outs = lib.run_model(lines, driver=DRIVER)
+        j = sum(len(ops) for ops, _ in cases)
+        for mlines, want, info in cmodel:
+            mo = outs[j:j + len(mlines)]
+            j += len(mlines)
+            if mo != want:
+                corr.disagree("concurrent writes read as sequential writes in call order",
+                              {**info, "model_ops": mlines, "impl": want, "model": mo})
         j = 0
         for (ops, info), obs in zip(cases, all_obs):
             mo = outs[j:j + len(ops)]
